@@ -431,7 +431,7 @@ func (d cffDict) setDeltaF16(op dictOp, val []funit.Int16) {
 	res := make([]interface{}, len(val))
 	var prev funit.Int16
 	for i, x := range val {
-		res[i] = int32(x - prev)
+		res[i] = int32(x) - int32(prev) // the difference may exceed the int16 range
 		prev = x
 	}
 	d[op] = res
